@@ -19,6 +19,21 @@ CLAIMS = {
          "vetted-destructor table. Necessary condition of exact reference counts: no owned edge is dropped by the compiler "
          "instead of being released through the manager, on any path incl. every `?`/out-of-memory path.",
          "MIR drop-terminator typestate lint (rustc_private driver)", "3.1, 4 C05"),
+ "C03": ("E-UNITS + E-UNITS.pre: unit analysis (VarNo vs LevelNo, both u32 aliases) over all bodies of the managers, "
+         "oxidd-reorder and the rules crates, seeded from the declared signatures; inside level_swap, stale stored level numbers "
+         "vs positions. Necessary for 'every node is listed in the level it reports' and 'children on lower levels' after a "
+         "reordering; does not decide uniqueness/reducedness over histories.",
+         "dimension (unit) analysis over type-checked HIR", "3.10, 4 C03"),
+ "C08": ("E-UNITS.pre + E-UNITS + E-LIN on oxidd-reorder: level_swap's stale-number discipline (compare stored numbers with "
+         "_pre parameters only, create/relabel nodes with the stale number of their level), no var/level mix-ups, no owned edge "
+         "dropped by the compiler. Does not decide that functions are preserved.",
+         "dimension (unit) analysis over HIR + MIR drop lint", "3.10, 3.1, 4 C08"),
+ "C13": ("E-UNITS on the rules crates: pick_cube's level->variable conversions carry the declared units. "
+         "Does not decide that the cube is an implicant.", "dimension (unit) analysis over type-checked HIR", "3.10, 4 C13"),
+ "C14": ("E-LIN restricted to error exits: on every `?`/Err path of the rules crates, oxidd-dump, oxidd-reorder, the managers "
+         "and the FFI crate no owned edge is dropped by the compiler, i.e. everything acquired is released through a guard or "
+         "the manager. Does not decide state validity after failure.",
+         "MIR drop-terminator typestate lint (rustc_private driver)", "3.1, 4 C14"),
  "C09": ("E-WRAP: the BooleanVecSet wrappers and the Boolean view of ZBDDs are interpreted symbolically and must denote "
          "the set operation they are named for (incl. subset::<VAL> tags and diff operand order).",
          "abstract interpretation of HIR wrappers", "3.4, 4 C09"),
